@@ -21,6 +21,8 @@ pub enum MutKind {
     /// over-mount an entry of the jail's /proc ({PID} = the traced worker); index into mountmc kinds
     Mount(crate::mountmc::MKind, String),
     Umount(String),
+    /// exchange a and b only while the witness path exists (a one-shot exchange: the witness disappears with it)
+    XchgIf(String, String, String),
 }
 
 /// Paths are absolute, outside view (inside /verif/.jail).
@@ -59,6 +61,7 @@ impl Mutation {
             // whatever it creates is then inside by construction, and nothing it does can be mistaken for the library's doing
             MutKind::Mkdir(a) => lstat(a).is_none() && std::path::Path::new(a).parent().map(|p| lstat(p.to_str().unwrap_or("")).map(|s| s.is_dir()).unwrap_or(false) && std::fs::canonicalize(p).map(|c| c == p).unwrap_or(false)).unwrap_or(false),
             MutKind::Xchg(a, b) => lstat(a).is_some() && lstat(b).is_some(),
+            MutKind::XchgIf(a, b, w) => lstat(a).is_some() && lstat(b).is_some() && lstat(w).is_some(),
             MutKind::Move(a, b) => lstat(a).is_some() && lstat(b).is_none() && std::path::Path::new(b).parent().map(|p| p.is_dir()).unwrap_or(false),
             MutKind::Remove(a) => match lstat(a) { Some(st) => !st.is_dir() || std::fs::read_dir(a).map(|mut d| d.next().is_none()).unwrap_or(false), None => false },
         }
@@ -67,7 +70,7 @@ impl Mutation {
         let r = match &self.kind {
             MutKind::Mount(..) | MutKind::Umount(..) => return mach("mount mutations need apply_in"),
             MutKind::Mkdir(a) => { let c = cs(a); if unsafe { libc::mkdir(c.as_ptr(), 0o755) } == 0 { Ok(()) } else { Err(errno()) } }
-            MutKind::Xchg(a, b) => renameat2(a, b, libc::RENAME_EXCHANGE),
+            MutKind::Xchg(a, b) | MutKind::XchgIf(a, b, _) => renameat2(a, b, libc::RENAME_EXCHANGE),
             MutKind::Move(a, b) => renameat2(a, b, libc::RENAME_NOREPLACE),
             MutKind::Remove(a) => {
                 let c = cs(a);
@@ -195,7 +198,11 @@ pub fn execute(cfg: &ExecCfg, ch: &mut Chooser) -> MResult<ExecOut> {
     let n = cfg.specs.len();
     let mut out = ExecOut::default();
     let tree_dev = lstat(&cfg.root_out).ok_or_else(|| Mach("root vanished".into()))?.dev;
-    out.ever_inside = walk_inodes(&cfg.root_out);
+    // "the root" is the directory the library holds, whatever it is called later (an attacker that may rename it included):
+    // everything is computed from a descriptor of that inode, never from its name
+    let root_pin = open_path(&cfg.root_out)?;
+    let root_ref = format!("/proc/self/fd/{}/.", std::os::unix::io::AsRawFd::as_raw_fd(&root_pin));
+    out.ever_inside = walk_inodes(&root_ref);
     // everything that exists in the world before the operation starts: none of it can be "created by the library"
     let preexisting = walk_inodes(&crate::sys::out("/w"));
     unsafe { libc::alarm(cfg.timeout_s) };
@@ -259,13 +266,20 @@ pub fn execute(cfg: &ExecCfg, ch: &mut Chooser) -> MResult<ExecOut> {
                 match &cfg.mode {
                     _ if spurious_retry => {}
                     Mode::Attack(muts) if ev.tree_rel => {
-                        let enabled: Vec<&Mutation> = muts.iter().filter(|m| m.enabled_in(&mounted, ts[w].pid)).collect();
-                        let k = ch.choose(&format!("atk@{}", ev.sig()), 1 + enabled.len() as u32, 1)?;
-                        if k > 0 {
+                        // the attacker may do several things between two consecutive system calls of the library: after a mutation
+                        // the same boundary is a choice point again (default: nothing more), until the deviation bound ends it
+                        let mut j = 0;
+                        loop {
+                            let enabled: Vec<&Mutation> = muts.iter().filter(|m| m.enabled_in(&mounted, ts[w].pid)).collect();
+                            let label = if j == 0 { format!("atk@{}", ev.sig()) } else { format!("atk+{}@{}", j, ev.sig()) };
+                            let k = ch.choose(&label, 1 + enabled.len() as u32, 1)?;
+                            if k == 0 { break; }
                             let m = enabled[(k - 1) as usize];
                             m.apply_in(&mut mounted, ts[w].pid)?;
                             out.applied.push((out.events.len(), m.name.clone()));
-                            out.ever_inside.extend(walk_inodes(&cfg.root_out));
+                            out.ever_inside.extend(walk_inodes(&root_ref));
+                            j += 1;
+                            if j >= 4 { break; }
                         }
                     }
                     Mode::Fault(fc) => {
@@ -327,7 +341,7 @@ pub fn execute(cfg: &ExecCfg, ch: &mut Chooser) -> MResult<ExecOut> {
                             if let Some(r) = &ev.retid { if ev.name == "openat" && !preexisting.contains(&(r.dev, r.ino)) && name != "." && name != ".." && entry.as_ref().map(|st| (st.dev, st.ino) == (r.dev, r.ino)).unwrap_or(true) { out.ever_inside.insert((r.dev, r.ino)); } }
                         }
                     }
-                    out.ever_inside.extend(walk_inodes(&cfg.root_out));
+                    out.ever_inside.extend(walk_inodes(&root_ref));
                 }
                 out.events.push(ev);
             }
@@ -372,7 +386,7 @@ pub fn execute(cfg: &ExecCfg, ch: &mut Chooser) -> MResult<ExecOut> {
         out.killed.push(t.killed_by);
         out.exit.push(t.exit_status);
     }
-    out.ever_inside.extend(walk_inodes(&cfg.root_out));
+    out.ever_inside.extend(walk_inodes(&root_ref));
     Ok(out)
 }
 
